@@ -12,6 +12,7 @@ import (
 	"strconv"
 	"strings"
 	"sync"
+	"sync/atomic"
 	"syscall"
 	"time"
 
@@ -146,6 +147,11 @@ func (l *launched) pid() int {
 }
 
 // procState returns the state letter from /proc/<pid>/stat, or "gone".
+//
+// Process ids are recycled (pid_max is 32768 here and every thread takes one), and /proc/<id> answers for
+// thread ids too: on a loaded machine the id of a plugin that has ended can belong to somebody else a few
+// seconds later. Every plugin process of the harness is started by this host process, so an id counts as
+// "the plugin" only while it names a thread-group leader whose parent is this process.
 func procState(pid int) string {
 	if pid <= 0 {
 		return "nopid"
@@ -159,8 +165,35 @@ func procState(pid int) string {
 	if i < 0 || i+2 >= len(s) {
 		return "?"
 	}
-	return string(s[i+2])
+	f := strings.Fields(s[i+2:]) // f[0] state, f[1] ppid
+	if len(f) < 2 {
+		return "?"
+	}
+	if ppid, _ := strconv.Atoi(f[1]); ppid != os.Getpid() {
+		procForeign.Add(1)
+		return "gone"
+	}
+	if st, err := os.ReadFile(fmt.Sprintf("/proc/%d/status", pid)); err == nil {
+		for _, ln := range strings.Split(string(st), "\n") {
+			if strings.HasPrefix(ln, "Tgid:") && strings.TrimSpace(strings.TrimPrefix(ln, "Tgid:")) != strconv.Itoa(pid) {
+				procForeign.Add(1)
+				return "gone"
+			}
+		}
+	}
+	return f[0]
 }
+
+// killOurs signals a plugin process of this host process; an id that no longer names one (ended and
+// recycled) is left alone.
+func killOurs(pid int, sig syscall.Signal) {
+	if st := procState(pid); st != "gone" && st != "nopid" && st != "?" {
+		syscall.Kill(pid, sig)
+	}
+}
+
+// procForeign counts the times an id turned out to belong to somebody else.
+var procForeign atomic.Int64
 
 // waitState polls until the process state is one of want or d elapsed.
 func waitState(pid int, d time.Duration, want ...string) string {
@@ -258,8 +291,8 @@ func (l *launched) closeCtl() {
 // hardKill makes sure the plugin process is gone at the end of a case.
 func (l *launched) hardKill() {
 	if p := l.pid(); p > 0 {
-		syscall.Kill(p, syscall.SIGCONT)
-		syscall.Kill(p, syscall.SIGKILL)
+		killOurs(p, syscall.SIGCONT)
+		killOurs(p, syscall.SIGKILL)
 	}
 	l.closeCtl()
 }
